@@ -297,31 +297,40 @@ class BlockModeTarget(Target):
         _, cname, klen, mode, seg, extra = spec
         self.cname, self.klen, self.mode, self.seg = cname, klen, mode, seg
         self.extra = dict(extra)
+        # CTR options of the spec that are not keyword arguments of new() as they stand
+        self.nonce_len = self.extra.pop("nonce_len", None)          # length of the fixed prefix (default: half a block)
+        self.initial_value = self.extra.pop("initial_value", None)  # first counter value (default 0)
+        self.counter = self.extra.pop("counter", None)              # ("le"|"be", prefix len, suffix len, first value): Util.Counter
         self.mod = _cmod(cname)
         bs = self.bs = self.mod.block_size
         self.key = _key(cname, klen)
         self.iv = seeded("c09/iv/%s" % cname, bs)
-        self.nonce = seeded("c09/ctrnonce/%s" % cname, bs // 2)
+        self.nonce = seeded("c09/ctrnonce/%s" % cname, bs // 2 if self.nonce_len is None else self.nonce_len)
+        if self.counter is not None:
+            self.cprefix = seeded("c09/ctrprefix/%s" % cname, self.counter[1])
+            self.csuffix = seeded("c09/ctrsuffix/%s" % cname, self.counter[2])
         self.name = "%s-%d/%s%s%s" % (cname, klen * 8, mode, ("-%d" % seg) if seg else "",
                                       "".join("/%s=%s" % kv for kv in extra))
         self.keyname = mode
         big = thorough
         if mode in ("ECB", "CBC"):
-            blocks = [0, 1, 2, 3, 7, 8, 9] + ([16, 17] if big else [])
+            blocks = [0, 1, 2, 3, 7, 8, 9] + ([15, 16, 17, 24] if big else [])
             lens = [b * bs for b in blocks]
             st = Stream("m", "encrypt/decrypt", bs, lens, lens, gran=bs, has_out=True,
-                        joint=lens, win=[8 * bs])
+                        joint=lens, win=[8 * bs, 16 * bs] if big else [8 * bs])
         elif mode == "CFB":
             s = seg // 8
             lens = set(bset(s)) | set(bset(bs))
-            st = Stream("m", "encrypt/decrypt", s, lens, has_out=True, win=sorted({s, bs}))
+            st = Stream("m", "encrypt/decrypt", s, lens, has_out=True,
+                        win=sorted({s, bs, 2 * bs}) if big else sorted({s, bs}))
         elif mode == "OFB":
             st = Stream("m", "encrypt/decrypt", bs, bset(bs, (8 * bs - 1, 8 * bs, 8 * bs + 1) if big else ()),
-                        has_out=True)
+                        has_out=True, win=[bs, 2 * bs] if big else None)
         elif mode == "CTR":
-            ks = 8 * bs                      # raw_ctr.c keeps a keystream of 8 blocks
+            ks = 8 * bs                      # raw_ctr.c keeps a keystream of 8 blocks (NR_BLOCKS)
             ext = [ks - 1, ks, ks + 1] + ([2 * ks - 1, 2 * ks, 2 * ks + 1] if big else [])
-            st = Stream("m", "encrypt/decrypt", bs, bset(bs, ext), has_out=True, win=[bs, ks])
+            st = Stream("m", "encrypt/decrypt", bs, bset(bs, ext), has_out=True,
+                        win=[bs, ks, 2 * ks] if big else [bs, ks])
         elif mode == "OPENPGP":
             st = Stream("m", "encrypt/decrypt", bs, bset(bs), has_out=False, zero_calls=False)
         else:
@@ -340,6 +349,14 @@ class BlockModeTarget(Target):
         if mode == "OFB":
             return m.new(self.key, m.MODE_OFB, iv=self.iv, **kw)
         if mode == "CTR":
+            if self.counter is not None:
+                from Crypto.Util import Counter
+                order, pl, sl, first = self.counter
+                kw["counter"] = Counter.new(8 * (self.bs - pl - sl), prefix=self.cprefix, suffix=self.csuffix,
+                                            initial_value=first, little_endian=(order == "le"))
+                return m.new(self.key, m.MODE_CTR, **kw)
+            if self.initial_value is not None:
+                kw["initial_value"] = self.initial_value
             return m.new(self.key, m.MODE_CTR, nonce=self.nonce, **kw)
         if mode == "OPENPGP":
             return m.new(self.key, m.MODE_OPENPGP, iv=iv if iv is not None else self.iv, **kw)
@@ -357,12 +374,20 @@ class BlockModeTarget(Target):
 
     def src_new(self, dirn, inputs, aux, data_expr=None):
         c, mode = self.cname, self.mode
+        imp = "from Crypto.Cipher import %s" % c
+        ctr = ", nonce=%s" % _hx(self.nonce)
+        if self.initial_value is not None:
+            ctr += ", initial_value=%d" % self.initial_value
+        if self.counter is not None:
+            order, pl, sl, first = self.counter
+            imp += "\nfrom Crypto.Util import Counter"
+            ctr = ", counter=Counter.new(%d, prefix=%s, suffix=%s, initial_value=%d, little_endian=%r)" % (
+                8 * (self.bs - pl - sl), _hx(self.cprefix), _hx(self.csuffix), first, order == "le")
         a = {"ECB": "", "CBC": ", iv=%s" % _hx(self.iv), "OFB": ", iv=%s" % _hx(self.iv),
              "CFB": ", iv=%s, segment_size=%d" % (_hx(self.iv), self.seg),
-             "CTR": ", nonce=%s" % _hx(self.nonce),
+             "CTR": ctr,
              "OPENPGP": ", iv=%s" % _hx(aux.get("eiv", self.iv) if dirn == "d" else self.iv)}[mode]
-        return ("from Crypto.Cipher import %s" % c,
-                "%s.new(%s, %s.MODE_%s%s%s)" % (c, _hx(self.key), c, mode, a, _kwsrc(self.extra)))
+        return (imp, "%s.new(%s, %s.MODE_%s%s%s)" % (c, _hx(self.key), c, mode, a, _kwsrc(self.extra)))
 
     def ref(self, inputs):
         from ..ref import modes
@@ -380,7 +405,11 @@ class BlockModeTarget(Target):
         if mode == "OFB":
             return modes.ofb_crypt(c, self.iv, pt), b""
         if mode == "CTR":
-            return modes.ctr_crypt(c, pt, prefix=self.nonce), b""
+            if self.counter is not None:
+                order, pl, sl, first = self.counter
+                return modes.ctr_crypt(c, pt, prefix=self.cprefix, suffix=self.csuffix, initial_value=first,
+                                       little_endian=(order == "le")), b""
+            return modes.ctr_crypt(c, pt, prefix=self.nonce, initial_value=self.initial_value or 0), b""
         if mode == "OPENPGP":
             return modes.openpgp_encrypt(c, self.iv, pt), b""
 
